@@ -360,6 +360,10 @@ func (fc *FnCtx) specialHigher(ins ssa.Instruction, callee *ssa.Function, cc *ss
 		if fc.sortSlice(ins, cc, setResult) {
 			return true
 		}
+	case "sort.Strings":
+		if fc.sortStrings(ins, cc, setResult) {
+			return true
+		}
 	}
 	if strings.HasPrefix(callee.String(), "github.com/samber/lo.Map[") && fc.loMap(ins, cc, args, setResult) {
 		return true
@@ -571,6 +575,34 @@ func (fc *FnCtx) sortSlice(ins ssa.Instruction, cc *ssa.CallCommon, setResult fu
 	fc.assume(fmt.Sprintf("(forall ((|j| Int)) (! (=> (and (<= 0 |j|) (< |j| %s)) (and (<= 0 (%s |j|)) (< (%s |j|) %s) (= (%s (%s |j|)) |j|))) :pattern ((%s |j|))))", n, inv, inv, n, pi, inv, inv), "sort.Slice: the permutation is onto")
 	g.set(fc.cur, k, fmt.Sprintf("(store %s (sarr %s) %s)", h, sl, na))
 	g.trusted["built-in model: sort.Slice / sort.SliceStable with a read-only comparator permute the slice's elements in place and change nothing else (sortedness is not assumed)"] = true
+	setResult(nil)
+	return true
+}
+
+// sortStrings models sort.Strings(x): the elements of x are permuted in place (uninterpreted bijection of the index
+// range) and end up in non-decreasing lexicographic order; nothing else changes.
+func (fc *FnCtx) sortStrings(ins ssa.Instruction, cc *ssa.CallCommon, setResult func([]Val)) bool {
+	g := fc.g
+	st, ok := cc.Args[0].Type().Underlying().(*types.Slice)
+	if !ok {
+		return false
+	}
+	sl := fc.term(cc.Args[0]).t
+	k := g.arrKey(st.Elem())
+	h := g.get(fc.cur, k)
+	g.n++
+	pi, inv := fmt.Sprintf("|sort.pi!%d|", g.n), fmt.Sprintf("|sort.inv!%d|", g.n)
+	g.emit(fmt.Sprintf("(declare-fun %s (Int) Int)", pi))
+	g.emit(fmt.Sprintf("(declare-fun %s (Int) Int)", inv))
+	old := fmt.Sprintf("(select %s (sarr %s))", h, sl)
+	na := g.fresh(fc.prefix+"sort.arr", "(Array Int String)")
+	n := fmt.Sprintf("(slen %s)", sl)
+	fc.assume(fmt.Sprintf("(forall ((|i| Int)) (! (=> (or (< |i| (soff %s)) (>= |i| (+ (soff %s) %s))) (= (select %s |i|) (select %s |i|))) :pattern ((select %s |i|))))", sl, sl, n, na, old, na), "sort.Strings: outside the slice unchanged")
+	fc.assume(fmt.Sprintf("(forall ((|i| Int)) (! (=> (and (<= 0 |i|) (< |i| %s)) (and (<= 0 (%s |i|)) (< (%s |i|) %s) (= (%s (%s |i|)) |i|) (= (select %s (|ix| (soff %s) |i|)) (select %s (|ix| (soff %s) (%s |i|)))))) :pattern ((select %s (|ix| (soff %s) |i|))) :pattern ((%s |i|))))", n, pi, pi, n, inv, pi, na, sl, old, sl, pi, na, sl, pi), "sort.Strings: a permutation")
+	fc.assume(fmt.Sprintf("(forall ((|j| Int)) (! (=> (and (<= 0 |j|) (< |j| %s)) (and (<= 0 (%s |j|)) (< (%s |j|) %s) (= (%s (%s |j|)) |j|))) :pattern ((%s |j|))))", n, inv, inv, n, pi, inv, inv), "sort.Strings: the permutation is onto")
+	fc.assume(fmt.Sprintf("(forall ((|i| Int) (|j| Int)) (! (=> (and (<= 0 |i|) (<= |i| |j|) (< |j| %s)) (str.<= (select %s (|ix| (soff %s) |i|)) (select %s (|ix| (soff %s) |j|)))) :pattern ((select %s (|ix| (soff %s) |i|)) (select %s (|ix| (soff %s) |j|)))))", n, na, sl, na, sl, na, sl, na, sl), "sort.Strings: sorted")
+	g.set(fc.cur, k, fmt.Sprintf("(store %s (sarr %s) %s)", h, sl, na))
+	g.trusted["built-in model: sort.Strings permutes the slice's elements in place into non-decreasing lexicographic order and changes nothing else"] = true
 	setResult(nil)
 	return true
 }
